@@ -22,7 +22,7 @@ TWOPI = 2.0 * math.pi
 
 SPEC_INVARIANTS = ("VisViva", "EnergyConst", "HConstant", "EccVector", "KeplerGeometry", "OnLattice",
                    "ElementRoundTrip", "EquatorialSplit", "EquinoctialRoundTrip", "EqeMatchesCoe", "ArcSameOrbit",
-                   "ArcLagrange", "NoOverflow")
+                   "ArcLagrange", "ArcMinimumEnergy", "NoOverflow")
 ACTIONS = ("PoseFamily", "PoseOrient", "PoseAnomaly", "Perifocal1", "Rotate", "Vectors", "Classify",
            "Elements", "Equinoctial", "PoseArc", "ComputeArc")
 
@@ -53,7 +53,7 @@ def run_lattice(ctx, cfg: str, name: str, purpose: str, coverage: bool = False, 
     orbits, arcs, cases = res.tagged("ORBIT"), res.tagged("ARC"), res.tagged("CASES")
     # TLC's workers print in a run-dependent order: fix it so that a seed determines everything
     orbits.sort(key=lambda o: (o["fam"], str(o["rot"]), o["q"]))
-    arcs.sort(key=lambda a: (a["fam"], str(a["rot"]), a["q"], a["dq"]))
+    arcs.sort(key=lambda a: (a["fam"], str(a["rot"]), a["q"], a["kind"]))
     if not orbits or len(cases) != 1:
         raise tlc.MachineryError("OrbitLattice.tla emitted no orbits / case table")
     if coverage:
